@@ -1394,7 +1394,7 @@ struct array : static_array<T, D, Alloc> {
 		if(array::extensions() == other.extensions()) {
 			static_::operator=(other);  // TODO(correaa) : protect for self assigment
 		} else {
-			operator=(array{other});
+			operator=(array{other, this->get_allocator()});  // the temporary's block is adopted by *this: it must come from this allocator
 		}
 		return *this;
 	}
@@ -1409,7 +1409,7 @@ struct array : static_array<T, D, Alloc> {
 			static_::operator=(other);
 			//  this->operator()() = other;
 		} else {
-			operator=(static_cast<array>(other));
+			operator=(array(other, this->get_allocator()));  // the temporary's block is adopted by *this: it must come from this allocator
 		}
 		assert(this->stride() != 0);
 		return *this;
@@ -1432,7 +1432,7 @@ struct array : static_array<T, D, Alloc> {
 				this->operator()() = std::forward<Range>(other);
 			}
 		} else {
-			operator=(static_cast<array>(std::forward<Range>(other)));
+			operator=(array(std::forward<Range>(other), this->get_allocator()));  // the temporary's block is adopted by *this: it must come from this allocator
 		}
 		return *this;
 	}
@@ -1452,7 +1452,7 @@ struct array : static_array<T, D, Alloc> {
 			}
 			//  static_::operator=(other);
 		} else {
-			operator=(static_cast<array>(std::forward<Range>(other)));
+			operator=(array(std::forward<Range>(other), this->get_allocator()));  // the temporary's block is adopted by *this: it must come from this allocator
 		}
 		return *this;
 	}
@@ -1487,7 +1487,7 @@ struct array : static_array<T, D, Alloc> {
 		if(adl_distance(first, last) == this->size() && (this->size() == 0 || multi::extensions(*first) == multi::extensions(*(this->begin())))) {
 			static_::ref::assign(first);
 		} else {
-			this->operator=(array(first, last));
+			this->operator=(array(first, last, this->get_allocator()));  // the temporary's block is adopted by *this: it must come from this allocator
 		}
 		return *this;
 	}
